@@ -67,11 +67,31 @@ def parse(text, name, **kw):
     return cg.io.verilog_to_circuit(text, name, blackboxes=bb_objects(), **kw)
 
 
+def edit_result(c):
+    """Edits a caller may make to a parsed circuit (they must not leak into a later parse)."""
+    g = c.graph
+    gates = sorted(n for n in g.nodes if g.nodes[n].get("type") in space.FLIP)
+    if gates:
+        c.set_type(gates[0], space.FLIP[g.nodes[gates[0]]["type"]])
+    outs = sorted(c.outputs())
+    if outs:
+        c.set_output(outs[-1], False)
+    c.add("zz_extra", "input", output=True)
+    plain = sorted(n for n in g.nodes if g.nodes[n].get("type") not in ("input", "bb_input", "bb_output") and n != "zz_extra")
+    if plain:
+        c.remove(plain[-1])
+    for k in list(c.blackboxes)[:1]:
+        c.blackboxes.pop(k)
+
+
 def check_module(acc, m, text, case, site, only_nets=None):
     """Parse ``text`` and compare with the denotation of module AST ``m``.  Returns list of bad nets."""
     den = V.Denotation(m, BB_DEFS)
     acc.transitions += 1
     try:
+        if case.get("history"):
+            # read / edit the returned circuit in place / read the SAME text again: the second result is judged
+            edit_result(parse(text, m["name"]))
         c = parse(text, m["name"])
     except Exception as e:  # noqa: BLE001
         acc.violation(site, f"parse-raises:{common.exc_name(e)}", dict(case, text=text, site=site), repr(e)[:300])
@@ -253,6 +273,11 @@ def run_gates(job, acc):
             if m["items"][-1][1] in ("xor", "xnor") and len(set(ops2)) < len(ops2):
                 flags = ["parity-same-operand-twice"]
             report(acc, "gates", case, text, bad, flags)
+        elif not bad and (_idx // job["of"]) % 5 == 0:
+            hc = dict(case, history=True)
+            hb = check_module(acc, m, text, hc, "gates")
+            if hb and hb != ["*"]:
+                report(acc, "gates", hc, text, hb, ["after-read-edit-read"])
         acc.sample({"text": text})
     acc.observe(acc.states)
 
@@ -323,6 +348,11 @@ def run_order(job, acc):
             bad = check_module(acc, m2, text, case, "order")
             if bad and bad != ["*"]:
                 report(acc, "order", case, text, bad)
+            elif not bad and idx % 7 == 0:
+                hc = dict(case, history=True)
+                hb = check_module(acc, m2, text, hc, "order")
+                if hb and hb != ["*"]:
+                    report(acc, "order", hc, text, hb, ["after-read-edit-read"])
         acc.sample({"text": V.render(V.module_tokens(m))})
     acc.observe(acc.states)
 
@@ -363,6 +393,11 @@ def run_bb(job, acc):
         bad = check_module(acc, m, text, case, "bb")
         if bad and bad != ["*"]:
             report(acc, "bb", case, text, bad)
+        elif not bad:
+            hc = dict(case, history=True)
+            hb = check_module(acc, m, text, hc, "bb")
+            if hb and hb != ["*"]:
+                report(acc, "bb", hc, text, hb, ["after-read-edit-read"])
         acc.sample({"text": text})
     acc.observe(acc.states)
 
